@@ -40,6 +40,46 @@ type pendMelt struct {
 
 func feeClass(ppk uint) string { return fmt.Sprintf("ppk%d", ppk) }
 
+// sendMonitor (C18, end to end): what Send hands over is worth exactly the requested amount to the recipient — the
+// proofs sum to `amount` without includeFees, and to `amount` + exactly the input fee the mint will charge for THESE
+// proofs (ceil of the sum of their keysets' ppk / 1000) with includeFees.
+func (hw *histWorld) sendMonitor(m *bMint, amount uint64, fees bool, t *bToken) {
+	if t == nil {
+		return
+	}
+	ppkOf := map[string]uint{}
+	for _, k := range m.env.M.ListKeysets().Keysets {
+		ppkOf[k.Id] = k.InputFeePpk
+	}
+	var sum, ppkSum uint64
+	maxPpk := uint(0)
+	for _, p := range t.proofs {
+		sum += p.Amount
+		ppkSum += uint64(ppkOf[p.Id])
+		if ppkOf[p.Id] > maxPpk {
+			maxPpk = ppkOf[p.Id]
+		}
+	}
+	mintFee := (ppkSum + 999) / 1000
+	want := amount
+	if fees {
+		want = amount + mintFee
+	}
+	hw.c.Hist("send-e2e", fmt.Sprintf("fees=%v/%s/%s", fees, feeClass(maxPpk), map[bool]string{true: "exact", false: "off"}[sum == want]))
+	if sum != want {
+		dir := "above"
+		if sum < want {
+			dir = "below"
+		}
+		cls := "ppk<1000"
+		if maxPpk >= 1000 {
+			cls = "ppk>=1000"
+		}
+		hw.c.MonitorFail("C18", fmt.Sprintf("C18/send-e2e/handed-over-%s/fees=%v/%s", dir, fees, cls),
+			fmt.Sprintf("Send(%d, includeFees=%v) handed over proofs worth %d (%d proofs, mint input fee %d): the recipient nets %d", amount, fees, sum, len(t.proofs), mintFee, sum-mintFee), hw.b.replay())
+	}
+}
+
 func newHistWorld(c *Ctx, prefix string, fees []uint, nWallets int) (*histWorld, error) {
 	sub := filepath.Join(c.Scratch, prefix)
 	os.MkdirAll(sub, 0700)
@@ -157,6 +197,9 @@ func (hw *histWorld) step() {
 		b.begin("send", w.idx, fmt.Sprintf("send w%d m%d %d fees=%v", w.idx, m.idx, amt, fees))
 		t, err := b.OpSend(w, m, amt, fees)
 		hw.model.send(hw, w, m, amt, fees, t, err)
+		if err == nil {
+			hw.sendMonitor(m, amt, fees, t)
+		}
 		hw.after(fmt.Sprintf("send/%s/fees=%v/%s", errTag(err), fees, feeClass(ppk)))
 	case roll < 36: // P2PK send (optionally SIG_ALL)
 		bal := hw.balanceAt(w, m)
@@ -376,6 +419,9 @@ func runWalletHist(c *Ctx) {
 	for h := 0; h < n; h++ {
 		runHistory(c, h)
 	}
+	for k := 0; k < 4; k++ {
+		rotationNoticedBy(c, k)
+	}
 	longRun(c, 0)
 	if c.Thorough {
 		for k := 1; k < 4; k++ {
@@ -566,6 +612,117 @@ func restoreContinueRestore(hw *histWorld, nOut int, tag string) {
 	c.Case(tag+"/restore-2/"+errTag(res2.err), true)
 }
 
+// rotationNoticedBy: the mint rotates its keyset while the wallet session is open; the FIRST wallet call that notices
+// it is, in turn, a send that needs a swap, a melt, a mint and a receive — followed by two more sends and a mint.
+// After each call the monitors compare the stored counter of every keyset with the counters the mint has signed and
+// look for a blinded message submitted twice.
+func rotationNoticedBy(c *Ctx, k int) {
+	first := []string{"send-swap", "melt", "mint", "receive"}[k%4]
+	hw, err := newHistWorld(c, "rot-"+first, []uint{0}, 2)
+	if err != nil {
+		c.Disagree([]string{"C19"}, "setup-rot", err.Error(), "", nil)
+		return
+	}
+	hw.model = newBooksModel(hw)
+	defer hw.close()
+	b := hw.b
+	w, w2 := b.wallets[0], b.wallets[1]
+	m := b.mints[0]
+	mintN := func(x *bWallet, amt uint64, tag string) {
+		b.begin("mint", x.idx, fmt.Sprintf("mint w%d m%d %d", x.idx, m.idx, amt))
+		_, err := b.OpMint(x, m, amt)
+		hw.model.mint(hw, x, m, amt, err)
+		hw.after("rot/" + first + "/" + tag + "/" + errTag(err))
+	}
+	sendN := func(x *bWallet, amt uint64, tag string) *bToken {
+		b.begin("send", x.idx, fmt.Sprintf("send w%d m%d %d fees=false", x.idx, m.idx, amt))
+		t, err := b.OpSend(x, m, amt, false)
+		hw.model.send(hw, x, m, amt, false, t, err)
+		hw.after("rot/" + first + "/" + tag + "/" + errTag(err))
+		return t
+	}
+	mintN(w, 64, "fund")
+	mintN(w2, 64, "fund2")
+	tok := sendN(w2, 5, "token-for-receive")
+	// make sure the first send after the rotation needs a swap WITH change (deterministic outputs on the new
+	// keyset): give away the small coins with exact sends, then pick an amount no subset of the coins adds up to
+	for it := 0; it < 16; it++ {
+		small := uint64(0)
+		for _, p := range w.W.VerifDB().GetProofs() {
+			if p.Amount <= 2 {
+				small = p.Amount
+				break
+			}
+		}
+		if small == 0 {
+			break
+		}
+		sendN(w, small, "drain")
+	}
+	reach := map[uint64]bool{0: true}
+	var total uint64
+	for _, p := range w.W.VerifDB().GetProofs() {
+		total += p.Amount
+		next := map[uint64]bool{}
+		for v := range reach {
+			next[v], next[v+p.Amount] = true, true
+		}
+		reach = next
+	}
+	x := uint64(0)
+	for v := uint64(1); v < total; v++ {
+		if !reach[v] {
+			x = v
+			break
+		}
+	}
+	if x == 0 {
+		c.Res.Notes = append(c.Res.Notes, "rotationNoticedBy: every amount is an exact subset sum, scenario "+first+" runs with amount 3")
+		x = 3
+	}
+	b.begin("rotate", -1, "rotate m0 fee=0")
+	b.OpRotate(m, 0)
+	hw.model.rotate(hw, m, 0)
+	hw.after("rot/" + first + "/rotate")
+	switch first {
+	case "send-swap":
+		// a locked send always goes through swapToSend, whatever coins the wallet holds
+		b.begin("send-locked", w.idx, fmt.Sprintf("sendlocked w%d m%d to=w%d %d sigall=false fees=false", w.idx, m.idx, w2.idx, x))
+		t, err := b.OpSendLocked(w, m, w2, x, false, false)
+		hw.lockOwner, hw.lockSigAll = w2.seed, false
+		hw.model.sendLocked(hw, w, m, x, false, t, err)
+		hw.after("rot/" + first + "/first-after-rotation/" + errTag(err))
+	case "melt":
+		b.begin("melt", w.idx, fmt.Sprintf("melt w%d m%d %d ln=paid", w.idx, m.idx, x))
+		q, err := b.OpMeltQuote(w, m, x)
+		if err == nil {
+			st, err := b.OpMelt(w, m, q.Quote, meltScript("paid"))
+			hw.model.melt(hw, w, m, x, q.Quote, "paid", st, err)
+			hw.after("rot/" + first + "/first-after-rotation/" + st + "/" + errTag(err))
+		} else {
+			hw.model.resync(hw, "melt-quote-error")
+			hw.after("rot/" + first + "/melt-quote/" + errTag(err))
+		}
+	case "mint":
+		mintN(w, 8, "first-after-rotation")
+	case "receive":
+		if tok != nil {
+			b.begin("receive-same", w.idx, fmt.Sprintf("receive w%d tok%d", w.idx, tok.id))
+			got, err := b.OpReceive(w, tok, false, true)
+			hw.model.receive(hw, w, tok, false, true, "paid", got, err)
+			b.pruneTokens()
+			hw.after("rot/" + first + "/first-after-rotation/" + errTag(err))
+		}
+	}
+	sendN(w, 3, "send-2")
+	b.begin("send-locked", w.idx, fmt.Sprintf("sendlocked w%d m%d to=w%d 5 sigall=false fees=false", w.idx, m.idx, w2.idx))
+	t2, err2 := b.OpSendLocked(w, m, w2, 5, false, false)
+	hw.lockOwner, hw.lockSigAll = w2.seed, false
+	hw.model.sendLocked(hw, w, m, 5, false, t2, err2)
+	hw.after("rot/" + first + "/send-locked-3/" + errTag(err2))
+	mintN(w, 8, "mint-after")
+}
+
 // longRun: > 300 outputs on one keyset, rotation, restore -> continue -> restore, with ordinary traffic in between.
 func longRun(c *Ctx, k int) {
 	fee := []uint{100, 0, 1000, 100}[k%4]
@@ -623,6 +780,9 @@ func (hw *histWorld) stepFor(w *bWallet) {
 		b.begin("send", w.idx, fmt.Sprintf("send w%d m%d %d fees=%v", w.idx, m.idx, amt, fees))
 		t, err := b.OpSend(w, m, amt, fees)
 		hw.model.send(hw, w, m, amt, fees, t, err)
+		if err == nil {
+			hw.sendMonitor(m, amt, fees, t)
+		}
 		hw.after(fmt.Sprintf("send/%s/fees=%v/%s", errTag(err), fees, feeClass(ppk)))
 	case 1:
 		if len(b.tokens) == 0 {
